@@ -15,7 +15,7 @@ from sa.ae import Seq, DictV, Obj, Unknown, Raised
 from rules import hist, struct, c04
 
 DC = hist.DC
-KCYCLE = ("out", "in", "und", "out", "par")      # kinds of the extra links of the hub `a`: a->x, x->a, a--x, a->x, a->b (parallel)
+KCYCLE = ("out", "in", "und", "loop", "par", "out")      # kinds of the extra links of the hub `a`: a->x, x->a, a--x, a->a, a->b (parallel), a->x
 
 
 class GS(hist.G):
@@ -24,7 +24,9 @@ class GS(hist.G):
     shape 'hub': `a` has exactly n links (extra links h1.. to bulk vertices x1.. in the kinds out / in / undirected / parallel to
     e_ab); U has exactly n members (a, b, c, x1 ..); a chain c -> y1 -> ... -> yn (n links deep, outside U); `a` belongs to exactly
     n universes (U, Z1 ..); a plain Link `Lbig` names exactly n vertices z1 .. zn.
-    shape 'par': exactly n directed links a -> b (e_ab, p1 ..) and one undirected a -- b in their middle."""
+    shape 'par': exactly n directed links a -> b (e_ab, p1 ..) and one undirected a -- b in their middle.
+    shape 'deep': a chain t1 -> t2 -> ... -> tn -> a of members of U in front of the base graph: whatever a traversal started at t1 does
+    with the base graph (branching, a cycle, a self-loop, the vertex d outside U) it does n levels deep."""
 
     def __init__(self, h, family, shape, n):
         self.h, self.family, self.shape, self.n = h, family, shape, n
@@ -37,7 +39,7 @@ class GS(hist.G):
             pool = {}
 
             def vert(name):
-                pool[name] = h.new(vcls, name, attributes=DictV([["name", name]]))
+                pool[name] = h.new(vcls, name, attributes=DictV([["name", name], ["grp", hist.GRP.get(name, "B")]]))
             for v in "abcd":
                 vert(v)
             for v in plan["verts"]:
@@ -46,7 +48,8 @@ class GS(hist.G):
                 pool[nme] = h.new(cls, nme, pool[x], pool[y])
             for nme, cls, x, y in plan["edges"]:
                 pool[nme] = h.new(cls, nme, pool[x], pool[y])
-            pool["U"] = h.new("Universe", "U", vertices=Seq([pool[v] for v in ["a", "b", "c"] + plan["members"]], "list"), attributes=DictV([["name", "U"]]))
+            # the `vertices=` argument names `a` a second time at its end (a repeated element joins once)
+            pool["U"] = h.new("Universe", "U", vertices=Seq([pool[v] for v in ["a", "b", "c"] + plan["members"] + ["a"]], "list"), attributes=DictV([["name", "U"]]))
             pool["W"] = h.new("Universe", "W", attributes=DictV([["name", "W"]]))
             for z in plan["unis"]:
                 pool[z] = h.new("Universe", z, vertices=Seq([pool["a"]], "list"), attributes=DictV([["name", z]]))
@@ -106,6 +109,8 @@ class GS(hist.G):
                     edges.append((f"h{i}", "DirectedEdge", x, "a"))
                 elif kind == "und":
                     edges.append((f"h{i}", "UnDirectedEdge", "a", x))
+                elif kind == "loop":
+                    edges.append((f"h{i}", "DirectedEdge", "a", "a"))
                 else:
                     edges.append((f"h{i}", "DirectedEdge", "a", "b"))
             prev = "c"
@@ -117,6 +122,16 @@ class GS(hist.G):
             unis = [f"Z{i}" for i in range(1, n)]
             big = [f"z{i}" for i in range(1, n + 1)]
             verts += big
+        elif shape == "deep":
+            prev = None
+            for i in range(1, n + 1):
+                t = f"t{i}"
+                verts.append(t)
+                members.append(t)
+                if prev is not None:
+                    edges.append((f"k{i - 1}", "DirectedEdge", prev, t))
+                prev = t
+            edges.append((f"k{n}", "DirectedEdge", prev, "a"))
         elif shape == "par":
             for i in range(1, n):
                 edges.append((f"p{i}", "DirectedEdge", "a", "b"))
@@ -154,6 +169,9 @@ def scale_mutators(h, shape, n):
         M += [k["unlink_from"]("Lbig", big[0]), k["unlink_from"]("Lbig", big[-1]), k["remove_from_link"](big[len(big) // 2], "Lbig"), k["add_vertex"]("Lbig", "d"), k["add_to_link"]("d", "Lbig"),
               k["seq"](k["unlink_from"]("Lbig", big[1]), k["add_vertex"]("Lbig", big[1]))]
         M += [k["unlink_from"](f"k{n}", f"y{n}"), k["setend"](f"k{max(1, n // 2)}", 1, "d"), k["ex_unlink"](f"y{n - 1}", f"y{n}", True), k["create"]("DirectedEdge", f"y{n}", "a"), k["create"]("DirectedEdge", f"y{n}", "d")]
+    elif shape == "deep":
+        M += [k["create"]("DirectedEdge", "c", "d"), k["create"]("UnDirectedEdge", "b", "d"), k["setend"]("e_bd", 1, "c"), k["u_add"]("U", "d", "u"), k["u_remove"]("U", "c"), k["u_remove"]("U", f"t{n}"),
+              k["ex_unlink"]("b", "c", True), k["create"]("DirectedEdge", f"t{n}", "c"), k["create"]("DirectedEdge", f"t{max(1, n // 2)}", "d"), k["setend"](f"k{n}", 1, "b"), k["unlink_from"]("e_ab", "b")]
     else:
         mid = f"p{max(1, (n - 1) // 2)}" if n > 1 else "e_ab"
         last = f"p{n - 1}" if n > 1 else "e_ab"
@@ -169,10 +187,10 @@ def replay(fam, shape, n, sch, mu, o):
     plan = GS.plan(shape, n)
     L = ["from edgegraph.structure import *", "from edgegraph.structure import TwoEndedLink, Link", "from edgegraph.builder import explicit", "from edgegraph.traversal import helpers, breadthfirst, depthfirst",
          "class SymTwo(TwoEndedLink): pass", "class SymLink(Link): pass",
-         f"V = {{n: {vcls}(attributes={{'name': n}}) for n in {['a', 'b', 'c', 'd'] + plan['verts']!r}}}", "globals().update(V)"]
+         f"V = {{n: {vcls}(attributes={{'name': n, 'grp': {hist.GRP!r}.get(n, 'B')}}) for n in {['a', 'b', 'c', 'd'] + plan['verts']!r}}}", "globals().update(V)"]
     for nme, cls, x, y in list(hist.G.EDGES) + plan["edges"]:
         L.append(f"{nme} = {cls}({x}, {y})")
-    L.append(f"U = Universe(vertices=[{', '.join(['a', 'b', 'c'] + plan['members'])}]); W = Universe()")
+    L.append(f"U = Universe(vertices=[{', '.join(['a', 'b', 'c'] + plan['members'] + ['a'])}]); W = Universe()")
     for z in plan["unis"]:
         L.append(f"{z} = Universe(vertices=[a])")
     if plan["big"]:
@@ -215,10 +233,14 @@ def _job(job):
 def run_one(h, res, prop, rule, fam, shape, n, sch, extra_observers, chunk):
     C = c04.consts(h)
     plan = GS.plan(shape, n)
-    more = [v for v in (plan["verts"][:1] + plan["verts"][-1:]) if not v.startswith("z")] if shape == "hub" else []
+    more, pairs, starts = [], (), ()
     if shape == "hub":
         more = ["x1", f"y{n}"] if "x1" in plan["verts"] else [f"y{n}"]
-    OBS = (extra_observers(h, C) if extra_observers else []) + hist.observers(h, C, more=more, more_unis=plan["unis"][:1] + plan["unis"][-1:])
+        pairs = (("a", "a"),) + ((("a", "x1"), ("x1", "a"), ("a", "x2"), ("x3", "a")) if "x3" in plan["verts"] else ())
+    elif shape == "deep":
+        more, starts = ["t1", f"t{n}"], ("t1",)
+        h.w.depth_budget = max(h.w.depth_budget, 3 * n + 90)       # the recursive forms go n levels deep before they reach the base graph
+    OBS = (extra_observers(h, C) if extra_observers else []) + hist.observers(h, C, more=more, more_unis=plan["unis"][:1] + plan["unis"][-1:], pairs=pairs, starts=starts)
     mine = [o for o in OBS if prop in o.props] if prop != "C13" else list(OBS)
     warm = [o for o in OBS if o.name.endswith((".links", ".universes", ".vertices", "vertices")) or o.name.startswith("neighbors(")]
     state = [o for o in OBS if o.name.endswith((".links", ".universes", ".vertices", "vertices")) or o.name.startswith("I1 ")]
@@ -226,13 +248,14 @@ def run_one(h, res, prop, rule, fam, shape, n, sch, extra_observers, chunk):
     seen = set()
 
     def describe(mu):
-        return (f"graph '{shape}' of size {n} ({'a has ' + str(max(n, 3)) + ' links, U ' + str(max(n, 3)) + ' members, a chain ' + str(n) + ' links deep from c, a in ' + str(n) + ' universes, a Link naming ' + str(n) + ' vertices' if shape == 'hub' else str(n) + ' parallel directed links a -> b and one undirected a -- b'}); "
+        return (f"graph '{shape}' of size {n} ({'a has ' + str(max(n, 3)) + ' links, U ' + str(max(n, 3)) + ' members, a chain ' + str(n) + ' links deep from c, a in ' + str(n) + ' universes, a Link naming ' + str(n) + ' vertices' if shape == 'hub' else (str(n) + ' parallel directed links a -> b and one undirected a -- b' if shape == 'par' else 'a chain t1 -> ... -> t' + str(n) + ' -> a of members of U in front of the base graph')}); "
                 f"caching {sch}; every accessor and query once; {mu.label if mu else '(no mutation)'}; query")
 
     def observe(g, mu, check=True, mine_first=False):
         nonlocal cnt
         todo = (mine + warm if mine_first else warm + mine) + (state if prop in hist.STATE_PROPS else [])
         for idx, o in enumerate(todo):
+            h.w.steps = 0
             out = o.do(g)
             if not check or prop not in o.props:
                 continue
@@ -263,6 +286,7 @@ def run_one(h, res, prop, rule, fam, shape, n, sch, extra_observers, chunk):
             observe(g, None, check=(mu is None))
             if mu is None:
                 continue
+            h.w.steps = 0
             out = mu.do(g)
             mr = mu.model(g.m)
             if mr is DC:
@@ -303,14 +327,15 @@ def _short(v, limit=420):
     return s_ if len(s_) <= limit else s_[:limit] + f"... ({len(s_)} characters)"
 
 
-def run(ctx, res, prop, rule="SCALE", extra=None, shapes=("hub", "par"), sizes=None, schedules=("off", "on")):
+def run(ctx, res, prop, rule="SCALE", extra=None, shapes=("hub", "par", "deep"), sizes=None, schedules=("off", "on")):
     """The scale histories of property `prop`; one job per (shape, size, caching), split over the cores.  -> comparisons"""
     import multiprocessing as mp
     import os
     from rules import common
     sizes = list(sizes) if sizes is not None else common.scale_sizes(ctx, res)
     root, overlay = str(ctx.src.root), dict(ctx.src.overlay)
-    base = [(root, overlay, prop, rule, "plain", shape, n, sch, extra) for shape in shapes for n in sizes for sch in schedules]
+    from rules.common import HUB_CAP
+    base = [(root, overlay, prop, rule, "plain", shape, n, sch, extra) for shape in shapes for n in sizes for sch in schedules if shape == "deep" or n <= HUB_CAP + 1]
     cpus = min(os.cpu_count() or 1, 16)
     k = max(1, -(-cpus // max(1, len(base))))
     jobs = [j + ((i, k),) for j in base for i in range(k)]
